@@ -92,8 +92,14 @@ def job(j: dict) -> dict:
     for ci, cfg in enumerate(j["cfgs"]):
         sec = {"max_methods": cfg["maxMethods"], "max_loc": cfg["maxLoc"], "check_keywords": cfg["checkKeywords"]}
         argv = ["srp"]
-        mode = ci % 3
-        if mode == 1:      # the values arrive through a per-language override, the base values are decoys
+        mode = (0, 1, 2, 4, 5)[ci % 5]
+        if mode in (4, 5):   # the language section overrides ONE threshold only; the other comes from the top level
+            other = [l for l in ("python", "typescript", "rust") if l != j["lang"]][0]
+            own, top = ("max_methods", "max_loc") if mode == 4 else ("max_loc", "max_methods")
+            val = {"max_methods": cfg["maxMethods"], "max_loc": cfg["maxLoc"]}
+            sec = {own: 5000 if own == "max_loc" else 50, top: val[top], "check_keywords": cfg["checkKeywords"],
+                   j["lang"]: {own: val[own]}, other: {"max_methods": 1, "max_loc": 1}}
+        elif mode == 1:      # the values arrive through a per-language override, the base values are decoys
             other = [l for l in ("python", "typescript", "rust") if l != j["lang"]][0]
             sec = {"max_methods": 50, "max_loc": 5000, "check_keywords": cfg["checkKeywords"],
                    j["lang"]: {"max_methods": cfg["maxMethods"], "max_loc": cfg["maxLoc"]},
